@@ -100,11 +100,34 @@ let lazy_ args =
      | e -> res_err e ^ " step=parse")
   | _ -> "bad-args"
 
+(* C16 with a caller edit: `lazyedit <moov payload hex> <ops> <i> <m>`: after the accessor calls, the table of the i-th trak is
+   replaced by m entries 1..m; then put_buf / encoded_len with the calculated headers (Mp4/BoxEdit.v) *)
+let lazyedit args =
+  match args with
+  | [hx; ops; i; m] ->
+    let p = unhex hx in
+    (match Model.parse_moov p with
+     | Model.Ok kids ->
+       let (kids', fail) = Model.run_ops (parse_ops ops) Model.O kids in
+       (match fail with
+        | Some (step, e) -> Printf.sprintf "%s step=%d" (res_err e) (int_of_nat step)
+        | None ->
+          (match Model.edit_trak (nat_of_int (int_of_string i)) (nat_of_int (int_of_string m)) kids' with
+           | Model.Ok kids2 ->
+             (match Model.puts_calc kids2, Model.lens_calc kids2 with
+              | Model.Ok b, Model.Ok n -> Printf.sprintf "ok put=%s elen=%s" (let h = hex b in if h = "" then "-" else h) (string_of_cn n)
+              | Model.Panic _, _ | _, Model.Panic _ -> "panic"
+              | _ -> "other")
+           | e -> res_err e ^ " step=edit"))
+     | e -> res_err e ^ " step=parse")
+  | _ -> "bad-args"
+
 let dispatch kind args =
   match kind with
   | "hdrparse" -> hdrparse args
   | "hdrmk" -> hdrmk args
   | "lazy" -> lazy_ args
+  | "lazyedit" -> lazyedit args
   | _ -> "unknown-kind " ^ kind
 
 let () = main_loop dispatch
